@@ -19,29 +19,42 @@ package env
 import "strings"
 
 // ExpandEnvWithDefault expands template variables with optional default for {}
+//
+// The template is scanned once from left to right, so the text of a substituted
+// value is never expanded again and the result does not depend on the iteration
+// order of envs.
 func ExpandEnvWithDefault(template string, envs map[string]string, defaultValue ...string) string {
 	if template == "" {
 		return ""
 	}
 
-	result := template
-
-	// Handle special case of {} - use provided default or first available file variable
-	if strings.Contains(result, "{}") {
-		defaultVal := ""
-		if len(defaultValue) > 0 && defaultValue[0] != "" {
-			defaultVal = defaultValue[0]
-		}
-		result = strings.ReplaceAll(result, "{}", defaultVal)
+	// {} is replaced by the provided default (or removed if there is none)
+	defaultVal := ""
+	if len(defaultValue) > 0 {
+		defaultVal = defaultValue[0]
 	}
 
-	// Replace named variables
-	for key, value := range envs {
-		if key != "" { // Skip empty key used for {} default
-			result = strings.ReplaceAll(result, "{"+key+"}", value)
+	var result strings.Builder
+	for i := 0; i < len(template); {
+		if template[i] == '{' {
+			if end := strings.IndexByte(template[i:], '}'); end >= 0 {
+				key := template[i+1 : i+end]
+				if key == "" { // the empty key is reserved for the {} default
+					result.WriteString(defaultVal)
+					i += end + 1
+					continue
+				}
+				if value, ok := envs[key]; ok {
+					result.WriteString(value)
+					i += end + 1
+					continue
+				}
+			}
 		}
+		result.WriteByte(template[i])
+		i++
 	}
-	return result
+	return result.String()
 }
 
 // ExpandEnvSlice expands template variables in a slice of strings
